@@ -246,7 +246,7 @@ pub fn phase(r: &mut Rng) -> f64 {
 pub fn helix(r: &mut Rng) -> ([f64; 6], &'static str) {
     let c = |r: &mut Rng| -> f64 {
         match r.below(12) {
-            0 => 0.0,
+            0 => r.pick(&[0.0, 0.0, -0.0]),
             1 => r.pick(&[3.0, -3.0]),
             2 => sign(r) * log_uniform(r, 1e-12, 1e-2),
             _ => uniform(r, -3.0, 3.0),
@@ -268,7 +268,14 @@ fn cyl(x: f64, y: f64, z: f64) -> [f64; 3] {
 
 /// a point of the quantifier: anywhere in the drift volume, or within 1 cm of the helix
 pub fn point(r: &mut Rng, hp: [f64; 6]) -> ([f64; 3], &'static str) {
-    match r.below(10) {
+    match r.below(11) {
+        10 => {
+            // special values: signed zeros, subnormals, axis-aligned directions (sign-of-zero and exact-tie paths)
+            let rr = r.pick(&[0.0, -0.0, 0.05, 0.15, 0.25, 5e-324, hp[3]]);
+            let ph = r.pick(&[0.0, -0.0, 5e-324, -5e-324, PI, -PI, PI / 2.0, -PI / 2.0, hp[4], -hp[4]]);
+            let z = r.pick(&[0.0, -0.0, hp[2], hp[2] + hp[5], hp[2] - 0.5 * hp[5], 5e-324, 1.3, -1.3]);
+            ([rr, ph, z], "special")
+        }
         0..=3 => {
             let rr = match r.below(8) {
                 0 => r.pick(&[0.05, 0.25, 0.109, 0.182]),
